@@ -1178,7 +1178,9 @@ def gen_app(rng, big=False):
         routes.append({'name': 'r1', 'pattern': '/r1/{mp}', 'ugv': rng.random() < 0.5})
     if nr >= 2:
         routes.append({'name': 'r2', 'pattern': '/r2/{mp}', 'ugv': rng.random() < 0.5})
-    offers = rng.sample(c03.OFFERS, rng.choice([0, 0, 1, 2]))
+    # no two accept offers of one application with equal `sort_accept_offers` keys: pyramid orders such a tie by Python `set`
+    # iteration order (PYTHONHASHSEED-dependent), see notes/C03.md "Accept-family round"; corpus w29 is the seed-47 case
+    offers = c03.distinct_offer_keys(rng.sample(c03.OFFERS, rng.choice([0, 0, 1, 2, 3])))[:2]
     rich = rng.random() < 0.25
     nst = rng.choice([2, 3, 4, 5, 6, 7] if not big else [6, 8, 10, 12])
     stmts = []
@@ -1317,6 +1319,21 @@ def check_case(case):
     return {'obs': obs, 'viol': viol, 'stats': stats, 'minfo': minfo}
 
 
+def accept_tie_groups(case):
+    """tags of statements of one slot whose different accept offers have EQUAL sort_accept_offers keys: pyramid orders their
+    buckets by Python set iteration order (PYTHONHASHSEED), so which of them is tried first is not a function of the case"""
+    groups = {}
+    for st in case['stmts']:
+        a = st.get('accept')
+        if a is None:
+            continue
+        base = a.split(';')[0]
+        key = (st.get('route'), stmt_ctx_id(st), st['name'] if st['kind'] == 'view' else '',
+               base if base in c03.ORDERED_TYPES else '?', ';' in a)
+        groups.setdefault(key, {}).setdefault(a, []).append(st['tag'])
+    return [sorted(t for ts in g.values() for t in ts) for g in groups.values() if len(g) >= 2]
+
+
 def compare_model(case, res, mo):
     if mo is None or res['minfo'] is None:
         return None
@@ -1328,6 +1345,10 @@ def compare_model(case, res, mo):
     problems = []
     mout = mo['out']
     if mout != obs['out']:
+        tie = (mout[:2] == ['resp', 'view'] and obs['out'][:2] == ['resp', 'view'] and
+               any(mout[2] in g and obs['out'][2] in g for g in accept_tie_groups(case)))
+        if tie:
+            return None            # an unordered pair (equal accept sort keys): either view may answer
         problems.append('outcome')
     if mo['caught'] != obs['caught']:
         problems.append('caught')
